@@ -87,3 +87,29 @@ def tolerated_signatures(prop):
         if e.get("status", "known") == "known" and e.get("signature") and prop in (e.get("property"), *e.get("also_seen_in", [])):
             out.append(re.compile(e["signature"]))
     return out
+
+
+def variants(glob, fn, parts, keep_original=False):
+    """Split a condition into several that run in parallel: `parts` is a list of (suffix, extra-requires).
+    Each variant has the same body, bounds, timeouts and metadata plus the extra precondition line."""
+    import functools
+    c = fn._vf
+    for suffix, extra in parts:
+        def make(extra=extra, suffix=suffix):
+            @functools.wraps(fn)
+            def v(*a, **k):
+                return fn(*a, **k)
+            v.__name__ = v.__qualname__ = fn.__name__ + suffix
+            v.__doc__ = (fn.__doc__ or "").rstrip() + "\n    requires: " + extra + "\n    "
+            v.__module__ = glob["__name__"]
+            try:
+                del v.__wrapped__
+            except AttributeError:
+                pass
+            v.__signature__ = inspect.signature(fn)
+            return condition(kind=c.kind, tiers=c.tiers, timeout=c.timeout, bounds=c.bounds, functions=c.functions, note=c.note,
+                             expect=c.expect, outside=c.outside)(v)
+        nv = make()
+        glob[nv.__name__] = nv
+    if not keep_original:
+        del fn._vf
